@@ -165,10 +165,27 @@ fn seq_flood(run: &mut Run, is_client: bool) {
     run.count(&format!("dtlslive:end_state:{st}:{}", s.state_text()));
 }
 
+/// 66 000 HelloVerifyRequests (message_seq 0 each time — the client re-synchronises after every HVR) to a lone client:
+/// every one makes the client send a fresh ClientHello and advance its own 16-bit `message_seq`
+fn hvr_flood(run: &mut Run) {
+    use rustrtc::transports::dtls::handshake::HandshakeType as T;
+    let mut s = Session::new(false, true, usize::MAX);
+    s.step(1);
+    let hvr = vec![254u8, 255, 4, 1, 2, 3, 4];
+    for rec in 0..1100u64 {
+        let msgs: Vec<(T, u16, Vec<u8>)> = (0..60).map(|_| (T::HelloVerifyRequest, 0u16, hvr.clone())).collect();
+        let d = super::dtls::handshake_record(&msgs, rec);
+        run_inject(run, &mut s, "flood-hvr", 0, &d, true);
+        if run.fails.iter().any(|f| f.case.starts_with("dtlslive flood-hvr")) { break; }
+    }
+    run.count(&format!("dtlslive:end_state:flood-hvr:{}", s.state_text()));
+}
+
 pub fn special(run: &mut Run, rng: &mut Rng, thorough: bool) {
     let per = if thorough { 3_000 } else { 150 };
     seq_flood(run, false);
     seq_flood(run, true);
+    hvr_flood(run);
     {
         use rustrtc::transports::dtls::handshake::HandshakeType as T;
         for _ in 0..(if thorough { 2_000 } else { 120 }) {
@@ -227,6 +244,8 @@ pub fn replay_special(run: &mut Run, stream: &str, a: &[&str]) -> bool {
     if stream != "dtlslive" || a.len() != 3 { return false; }
     let state = a[0]; let i: usize = a[1].parse().unwrap_or(0);
     let mut s = match state {
+        "flood-hvr" => { let mut r2 = Run::new("c07", "/tmp/c07-replay-flood"); hvr_flood(&mut r2);
+            for f in &r2.fails { run.fails.push(f.clone()); } let _ = std::fs::remove_dir_all("/tmp/c07-replay-flood"); return true; }
         "flood-server" | "flood-client" => { let mut r2 = Run::new("c07", "/tmp/c07-replay-flood"); seq_flood(&mut r2, state == "flood-client");
             for f in &r2.fails { run.fails.push(f.clone()); } let _ = std::fs::remove_dir_all("/tmp/c07-replay-flood"); return true; }
         "pre-server" | "fresh-server" => { let s = Session::new(false, false, usize::MAX); s.step(1); s }
